@@ -2,6 +2,7 @@ package fsutil
 
 import (
 	"bufio"
+	"bytes"
 	"io"
 	"math"
 )
@@ -12,5 +13,25 @@ import (
 func NewLineScanner(r io.Reader) *bufio.Scanner {
 	scanner := bufio.NewScanner(r)
 	scanner.Buffer(make([]byte, 0, 64*1024), math.MaxInt32)
+	return scanner
+}
+
+// NewExactLineScanner is NewLineScanner for content Goit wrote itself, whose lines end with "\n" and
+// nothing else: a carriage return in front of the line feed belongs to the line (bufio.ScanLines, made
+// for text files that may come from another platform, drops it), as in a commit message.
+func NewExactLineScanner(r io.Reader) *bufio.Scanner {
+	scanner := NewLineScanner(r)
+	scanner.Split(func(data []byte, atEOF bool) (advance int, token []byte, err error) {
+		if atEOF && len(data) == 0 {
+			return 0, nil, nil
+		}
+		if i := bytes.IndexByte(data, '\n'); i >= 0 {
+			return i + 1, data[:i], nil
+		}
+		if atEOF {
+			return len(data), data, nil
+		}
+		return 0, nil, nil
+	})
 	return scanner
 }
